@@ -98,6 +98,7 @@ class Extraction:
         self.ret = None
         self.rename = None
         self.keep_attrs = False
+        self.keep_vis = False
         self.derive = None
         self.header_only = False
         self.sig_only_external = False
@@ -125,6 +126,18 @@ def render_extraction(ex, gsubs, canary=None):
     lo_off, hi_off = item.head_start, item.end
     text = src[lo_off:hi_off]
     base_line = _loc(src, lo_off)
+    if item.kind == "fn" and not ex.keep_vis:
+        # visibility is irrelevant to verification and `pub` would forbid contracts that mention
+        # private fields: blank `pub` / `pub(..)` in front of the fn keyword
+        k = item.tok_lo
+        while k < item.tok_hi and toks[k].start < item.head_start:
+            k += 1
+        if toks[k].text == "pub":
+            e = k
+            if toks[k + 1].text == "(":
+                e = rustlex.match_close(toks, k + 1)
+            a, b = toks[k].start - lo_off, toks[e].end - lo_off
+            text = text[:a] + " " * (b - a) + text[b:]
     if item.kind in ("struct", "enum") and item.body_tok >= 0 and not ex.keep_attrs:
         # field / variant attributes (#[error(..)], #[default], #[clvm(..)], doc attrs) are dropped;
         # blanked with spaces so that line numbers are preserved
@@ -388,6 +401,8 @@ def parse_template(path, seen=None):
                         ex.rename = arg.strip()
                     elif name == "derive":
                         ex.derive = [d.strip() for d in arg.split(",") if d.strip()]
+                    elif name == "keep_vis":
+                        ex.keep_vis = True
                     elif name == "keep_attrs":
                         ex.keep_attrs = True
                     elif name == "header_only":
